@@ -40,6 +40,8 @@ const (
 
 type Task struct {
 	ID      int
+	quiet   int         // >0: inside a map-ranging loop of the library, yields are ignored
+	sites   [4][]uint32 // per-task passage count of every site
 	turn    int32
 	state   int
 	waitOn  interface{}
@@ -57,12 +59,14 @@ type Point struct {
 	At   uint64 `json:"at,omitempty"`
 	Site uint32 `json:"site,omitempty"`
 	Occ  uint32 `json:"occ,omitempty"`
+	Task int    `json:"task"` // the task that passes the site (-1: any)
 	To   int    `json:"to"`
 }
 
 type Switch struct {
 	At   uint64 `json:"at"`
 	Site uint32 `json:"site"`
+	Occ  uint32 `json:"occ"`
 	From int    `json:"from"`
 	To   int    `json:"to"`
 }
@@ -168,6 +172,9 @@ func Run(c Config, fns []func()) Result {
 	tasks = make([]*Task, len(fns))
 	for i, fn := range fns {
 		tasks[i] = &Task{ID: i, fn: fn}
+		for c := range tasks[i].sites {
+			tasks[i].sites[c] = make([]uint32, 1<<16)
+		}
 	}
 	mainTurn = 0
 	active = true
@@ -297,6 +304,41 @@ func pickNext(t *Task, prefer int) *Task {
 }
 
 //go:norace
+func hash3(a, b, c uint64) uint64 {
+	x := a*0x9E3779B97F4A7C15 ^ b
+	x ^= x >> 29
+	x *= 0xBF58476D1CE4E5B9
+	x ^= c * 0x94D049BB133111EB
+	x ^= x >> 32
+	x *= 0xD6E8FEB86659FD93
+	x ^= x >> 29
+	return x
+}
+
+//go:norace
+func pickHashed(t *Task, h uint64) *Task {
+	n := 0
+	for _, c := range tasks {
+		if c != t && c.state == stRunnable {
+			n++
+		}
+	}
+	if n == 0 {
+		return nil
+	}
+	k := int(h % uint64(n))
+	for _, c := range tasks {
+		if c != t && c.state == stRunnable {
+			if k == 0 {
+				return c
+			}
+			k--
+		}
+	}
+	return nil
+}
+
+//go:norace
 func pickRandom(t *Task) *Task {
 	n := 0
 	for _, c := range tasks {
@@ -321,12 +363,18 @@ func pickRandom(t *Task) *Task {
 
 //go:norace
 func recordSwitch(site uint32, from, to *Task) {
-	s := Switch{At: yieldCount, Site: site, From: from.ID, To: to.ID}
+	var occ uint32
+	if site != 0 {
+		occ = from.sites[(site>>24)&3][site&0xFFFF]
+	}
+	s := Switch{At: yieldCount, Site: site, Occ: occ, From: from.ID, To: to.ID}
 	if len(switches) < 4096 {
 		switches = append(switches, s)
 	}
-	mix(yieldCount)
-	mix(uint64(site))
+	// the log hash covers what the schedule is made of: who yielded where (site
+	// and per-task passage count) to whom; not the global counter, which also
+	// counts the yields inside map-ranging loops of the library
+	mix(uint64(site)<<32 | uint64(occ))
 	mix(uint64(from.ID)<<16 | uint64(to.ID))
 }
 
@@ -349,6 +397,12 @@ func Yield(site uint32) {
 	if t == nil {
 		return
 	}
+	if t.quiet > 0 {
+		// Go randomises map iteration order: which yield points are passed, and
+		// in which order, inside a loop over a map is not reproducible, so such
+		// loops run without scheduling points
+		return
+	}
 	class := (site >> 24) & 3
 	idx := site & 0xFFFF
 	occ := siteCount[class][idx] + 1
@@ -363,18 +417,31 @@ func Yield(site uint32) {
 		// let everybody run to completion without further switching
 		return
 	}
+	// Decisions are a function of (seed, task, site, how often this task has
+	// passed the site), not of a global stream: go-json ranges over Go maps
+	// while it compiles a type, the order of the yield points inside such loops
+	// differs from run to run, and a decision stream consumed in visiting order
+	// would diverge after the first such loop.
+	tocc := t.sites[class][idx] + 1
+	t.sites[class][idx] = tocc
 	var next *Task
 	decided := false
 	if len(pointIdx) != 0 {
-		if is, ok := pointIdx[yc]; ok {
+		if is, ok := pointIdx[yc]; ok && yc == 0 {
 			next = pickNext(t, cfg.Points[is[0]].To)
 			decided = true
 		}
 	}
 	if !decided && len(sitePoints) != 0 {
-		if is, ok := sitePoints[uint64(site)<<32|uint64(occ)]; ok {
-			next = pickNext(t, cfg.Points[is[0]].To)
-			decided = true
+		if is, ok := sitePoints[uint64(site)<<32|uint64(tocc)]; ok {
+			for _, pi := range is {
+				pt := cfg.Points[pi]
+				if pt.Task < 0 || pt.Task == t.ID {
+					next = pickNext(t, pt.To)
+					decided = true
+					break
+				}
+			}
 		}
 	}
 	if !decided {
@@ -382,10 +449,11 @@ func Yield(site uint32) {
 		if p == 0 {
 			return
 		}
-		if uint32(nextRand()&0xFFFF) >= p {
+		h := hash3(cfg.Seed, uint64(t.ID)<<32|uint64(site), uint64(tocc))
+		if uint32(h&0xFFFF) >= p {
 			return
 		}
-		next = pickRandom(t)
+		next = pickHashed(t, h>>16)
 	}
 	if next == nil || next == t {
 		return
@@ -432,5 +500,38 @@ func wake(obj interface{}) {
 			t.state = stRunnable
 			t.waitOn = nil
 		}
+	}
+}
+
+// QuietOn / QuietOff bracket a loop over a Go map in the instrumented copy;
+// QuietLevel / QuietRestore (deferred at function entry) make sure an early
+// return from inside such a loop ends the quiet region.
+//
+//go:norace
+func QuietOn() {
+	if active && cur != nil {
+		cur.quiet++
+	}
+}
+
+//go:norace
+func QuietOff() {
+	if active && cur != nil && cur.quiet > 0 {
+		cur.quiet--
+	}
+}
+
+//go:norace
+func QuietLevel() int {
+	if active && cur != nil {
+		return cur.quiet
+	}
+	return 0
+}
+
+//go:norace
+func QuietRestore(level int) {
+	if active && cur != nil {
+		cur.quiet = level
 	}
 }
